@@ -76,6 +76,57 @@ fn main() {
         let fu = fs.universe();
         ctx.run_slice(Slice::new(format!("q-many-pairs[{}]", fs.name()), fu.count(), move |i, loc| check_input(&fu.get(i), loc)));
     }
+    // long unify histories on one diagram: a base list of <= 2 (thorough: 3) pairs on 5 (6) equally labelled nodes is
+    // issued through the real unify() again and again - blocked (each pair 20 times) and alternating - up to 40 (60)
+    // pending pairs, far more than there are nodes; every single step is judged against the list model (the pending list
+    // grows by exactly that pair), then quotient() must merge exactly the components of the recorded pairs
+    {
+        let ls = if quick {
+            Spec { n_min: 5, n_max: 5, e_min: 0, e_max: 0, ks: 0, kt: 0, lw: 1, lx: 1, a: 0, b: 0, q: 2 }
+        } else {
+            Spec { n_min: 6, n_max: 6, e_min: 0, e_max: 0, ks: 0, kt: 0, lw: 1, lx: 1, a: 0, b: 0, q: 3 }
+        };
+        let lu = ls.universe();
+        let total = if quick { 40usize } else { 60 };
+        ctx.run_slice(Slice::new(format!("q-long-unify-histories[{} x blocked/alternating, {} unify calls then quotient]", ls.name(), total), lu.count() * 2, move |i, loc| {
+            let base = lu.get(i / 2);
+            let pairs = base.quot.clone();
+            if pairs.is_empty() {
+                loc.outcome(&("empty", 0usize));
+                return;
+            }
+            let b = Bounds { nodes: 99, edges: 99, pairs: 999, iface: 99, arity_s: 99, arity_t: 99, labels: 2, del_ids: 0, hyper_only: false, alphabet: Alphabet::Quotient };
+            let mut s = PLax { open: base.open.clone(), quot: vec![] };
+            let per = total / pairs.len();
+            for j in 0..total {
+                let (v, w) = if i % 2 == 0 { pairs[(j / per).min(pairs.len() - 1)] } else { pairs[j % pairs.len()] };
+                loc.trans(1);
+                let o = checked_step(&b, &s, &Act::Unify(v, w));
+                if let Some((k, why)) = o.violation {
+                    loc.violation(&format!("long-history-{}", k), serde_json::json!({"nodes": s.open.nodes.len(), "base_pairs": pairs, "pattern": if i % 2 == 0 { "blocked" } else { "alternating" }, "unify_calls_so_far": j, "call": [v, w], "why": why}));
+                    return;
+                }
+                match o.next {
+                    Some(n) => s = n,
+                    None => {
+                        loc.violation("long-history-unify-refused", serde_json::json!({"base_pairs": pairs, "unify_calls_so_far": j, "call": [v, w]}));
+                        return;
+                    }
+                }
+            }
+            loc.trans(1);
+            let o = checked_step(&b, &s, &Act::Quotient);
+            if let Some((k, why)) = o.violation {
+                loc.violation(&format!("long-history-{}", k), serde_json::json!({"nodes": s.open.nodes.len(), "base_pairs": pairs, "pattern": if i % 2 == 0 { "blocked" } else { "alternating" }, "pending_pairs": s.quot.len(), "why": why}));
+            }
+            let (_, k) = classes(s.open.nodes.len(), &s.quot);
+            if k < s.open.nodes.len() {
+                loc.nontrivial();
+            }
+            loc.outcome(&(s.open.nodes.len(), k, s.quot.len(), i % 2));
+            loc.sample(|| serde_json::json!({"base_pairs": pairs, "pending_pairs_before_quotient": s.quot.len(), "classes": k}));
+        }));
+    }
     // un-quotiented presentations of strict diagrams: as many pending pairs as repeated node occurrences
     let xs = if quick { Spec::open(3, 1, 2, 2, 2, 2, 2) } else { Spec::open(3, 2, 2, 1, 2, 2, 2) };
     let xu = xs.universe();
